@@ -219,3 +219,8 @@ func MapOrders(on bool) {}
 
 // MapOrdersIn(fn): explore map iteration orders only inside functions whose name contains fn ("" = off).
 func MapOrdersIn(fn string) {}
+
+// Sched(list): in the engine, goroutines started by functions whose name contains one of the comma
+// separated substrings run under the cooperative scheduler (all schedules explored). Natively a no-op:
+// the Go runtime schedules.
+func Sched(list string) {}
